@@ -17,7 +17,7 @@ ASSUMPTIONS = [
 
 AT = [("AT", "ExcludeRegion", "disable"), ("AT", "ExcludeRegion", "enable")]
 POINTS_RETRACT = [("TRAVEL", "O1"), ("TRAVEL", "O2"), ("TRAVEL", "I1"), ("TRAVEL", "I2"), ("TRAVEL", "Bd"),
-                  ("TRAVEL", "Br"), ("TRAVEL", "N"), ("PRINT", "I1"), ("PRINT", "O2"), ("PRINT", "O1"),
+                  ("TRAVEL", "Br"), ("TRAVEL", "N"), ("TRAVEL", "Org"), ("XONLY", "I1"), ("PRINT", "I1"), ("PRINT", "O2"), ("PRINT", "O1"),
                   ("RETRACT",), ("RECOVER",), ("WIPE", "I2"), ("WIPE", "O2"), ("ESET0",)]
 AT_AXIS = [("TRAVEL", "O2"), ("TRAVEL", "I1"), ("XONLY", "I1"), ("YONLY", "I1"), ("XONLY", "O2"), ("PRINT", "I2"),
            ("ZMOVE", 2), ("ZMOVE", 1), ("RETRACT",), ("RECOVER",)] + AT
@@ -39,7 +39,7 @@ def scenarios(tier):
         Scenario("c01-at-axis", World, dict(base, regions=["R", "D"]),
                  AT_AXIS + ([] if q else [("TRAVELZ", "I1", 2), ("PRINT", "O1"), ("TRAVEL", "Bd")]), max_states=cap,
                  note="disable/enable at arbitrary points, single-axis and Z-only moves; two overlapping regions"),
-        Scenario("c01-arc-add", World, dict(base, regions=["Rrev", "D"], enter="M117 in\n"), ARC_ADD,
+        Scenario("c01-arc-add", World, dict(base, regions=["Rrev", "D"], enter="M117 in\n", exit="M400\n"), ARC_ADD,
                  max_states=cap, note="arcs clear of / crossing / ending in a region, regions added while printing "
                                       "(up to four at once), reversed rectangle corners, enter script"),
         Scenario("c01-modes", World, dict(base, regions=["R"], emax=1), MODES, max_depth=5 if q else 8,
